@@ -757,11 +757,11 @@ def ra_vectors(ctx, part, maxlen, maxsecond):
 
 def ra_run(ctx, binary, vecs, tag, shared=False):
     vp = os.path.join(ctx.scratch, "ra-%s.vec" % tag)
-    rp = os.path.join(ctx.scratch, "ra-%s.%s" % (tag, "shared" if shared else "fresh"))
+    rp = os.path.join(ctx.scratch, "ra-%s.%s" % (tag, ("shared-" + str(shared)) if shared else "fresh"))
     with open(vp, "w") as f:
         for v in vecs:
             f.write(json.dumps(v) + "\n")
-    args = ["ra", "-vectors", vp, "-out", rp] + (["-shared"] if shared else [])
+    args = ["ra", "-vectors", vp, "-out", rp] + (["-shared"] if shared else []) + (["-overwrite"] if shared == "overwrite" else [])
     fr = os.environ.get("VERIF_FRAMES_OUT")
     if fr and not shared:
         args += ["-frames", fr + ".ra-" + tag]
@@ -769,6 +769,9 @@ def ra_run(ctx, binary, vecs, tag, shared=False):
     res = [json.loads(x) for x in read_lines(rp)]
     if len(res) != len(vecs):
         raise vlib.InfraError("ra driver returned %d results for %d vectors" % (len(res), len(vecs)))
+    for v, r in zip(vecs, res):
+        if v.get("perm") and not r.get("perm_ok"):
+            raise vlib.InfraError("permutation vector %s: the two advertisements do not have equal length and checksum" % [o["id"] for o in v["opts"]])
     return res
 
 
@@ -785,13 +788,17 @@ def ra_check(ctx, binary, vecs, tag, stats):
     packet -- the way a packet loop uses the library): in both the record must be the reference record."""
     res = ra_run(ctx, binary, vecs, tag)
     shared = ra_run(ctx, binary, vecs, tag, shared=True)
+    over = ra_run(ctx, binary, vecs, tag, shared="overwrite")      # no scribbling: the next frame overwrites the previous one
     per_key = ra_failures(vecs, res)
-    for key, items in ra_failures(vecs, shared, ":shared-buffer").items():
-        if key[:-len(":shared-buffer")] not in per_key:
-            per_key[key] = items
+    modes = {}
+    for suffix, mode, rr in ((":shared-buffer", True, shared), (":shared-overwrite", "overwrite", over)):
+        for key, items in ra_failures(vecs, rr, suffix).items():
+            if key[:-len(suffix)] not in per_key:
+                per_key[key] = items
+                modes[key] = (suffix, mode)
     for key, items in sorted(per_key.items()):
-        sh = key.endswith(":shared-buffer")
-        base = key[:-len(":shared-buffer")] if sh else key
+        suffix, sh = modes.get(key, ("", False))
+        base = key[:-len(suffix)] if suffix else key
         for v, r, field, detail, idx in items[:2]:
             if field == "table" and not v.get("many"):
                 # depends on the routers the same handler learned before: re-run the whole batch
@@ -807,8 +814,10 @@ def ra_check(ctx, binary, vecs, tag, stats):
                         json.dumps((v["firstRef"]["ref"] if field.startswith("first.") else v["ref"]).get(field.replace("first.", ""), None), default=list)),
                        {"family": "ra", "vector": v, "field": field, "shared": sh})
         stats.setdefault("failures_by_key", {})[key] = stats.get("failures_by_key", {}).get(key, 0) + len(items)
+    diff_over = sum(1 for a, b in zip(res, over) if a != b)
     diff = sum(1 for a, b in zip(res, shared) if a != b)
-    return {"vectors": len(vecs), "failing_vectors": sum(len(x) for x in per_key.values()), "shared_buffer_differences": diff}
+    return {"vectors": len(vecs), "failing_vectors": sum(len(x) for x in per_key.values()), "shared_buffer_differences": diff,
+            "shared_overwrite_differences": diff_over}
 
 
 def c10_part(ctx):
@@ -822,9 +831,10 @@ def c10_part(ctx):
     _, vecs3 = ra_vectors(ctx, "many", 1, 1)
     ndiff = 0
     seen = set()
-    for tag, vs in (("c10-single", vecs), ("c10-update", vecs2), ("c10-many", vecs3)):
+    for tag, vs, mode in [(t, v, m) for t, v in (("c10-single", vecs), ("c10-update", vecs2), ("c10-many", vecs3)) for m in (True, "overwrite")]:
+        # mode True: the buffer is scribbled over after each packet; "overwrite": the next packet overwrites it (a real receive loop)
         fresh = ra_run(ctx, binary, vs, tag)
-        shared = ra_run(ctx, binary, vs, tag, shared=True)
+        shared = ra_run(ctx, binary, vs, tag, shared=mode)
         for idx, (v, a, b) in enumerate(zip(vs, fresh, shared)):
             if a == b:
                 continue
@@ -848,22 +858,22 @@ def c10_part(ctx):
                     continue
                 seen.add(key)
                 a2 = ra_run(ctx, binary, [v], "c10-confirm")[0]
-                b2 = ra_run(ctx, binary, [v], "c10-confirm", shared=True)[0]
+                b2 = ra_run(ctx, binary, [v], "c10-confirm", shared=mode)[0]
                 if a2 == b2 and not v.get("many"):
                     # may depend on the routers the same handler learned before: re-run the whole batch
                     a2 = ra_run(ctx, binary, vs, "c10-confirm-all")[idx]
-                    b2 = ra_run(ctx, binary, vs, "c10-confirm-all", shared=True)[idx]
+                    b2 = ra_run(ctx, binary, vs, "c10-confirm-all", shared=mode)[idx]
                 if a2 == b2:
                     raise vlib.InfraError("shared-buffer difference %s did not reproduce" % key)
                 ctx.report(key, "router record after RA %s %s depends on the receive buffer being left alone: field %s" %
-                           (v["h"]["id"], [o["id"] for o in v["opts"]], f), {"family": "ra", "vector": v, "field": f, "shared": True})
+                           (v["h"]["id"], [o["id"] for o in v["opts"]], f), {"family": "ra", "vector": v, "field": f, "shared": mode})
     nv = len(vecs) + len(vecs2) + len(vecs3)
     return nv, nv, ndiff
 
 
 def replay_ra(ctx, binary, obj, path):
     v = obj["replay"]["vector"]
-    sh = bool(obj["replay"].get("shared"))
+    sh = obj["replay"].get("shared") or False
     r = ra_run(ctx, binary, [v], "replay", shared=sh)[0]
     if obj["key"].startswith("C10:"):
         fresh = ra_run(ctx, binary, [v], "replay")[0]
@@ -872,7 +882,10 @@ def replay_ra(ctx, binary, obj, path):
             return 1
         print("not reproduced")
         return 0
-    want = obj["key"][:-len(":shared-buffer")] if obj["key"].endswith(":shared-buffer") else obj["key"]
+    want = obj["key"]
+    for suffix in (":shared-buffer", ":shared-overwrite"):
+        if want.endswith(suffix):
+            want = want[:-len(suffix)]
     if any(ra_key(v, f) == want for f, _ in ra_judge(v, r)):
         print("VIOLATION property=%s replay=%s" % (ctx.pid, path))
         return 1
